@@ -33,13 +33,9 @@ def setup(ex: Exec, ch: Choices, info: dict[str, Any]) -> None:
 
     def between(eng: Any) -> None:
         if n[0] == at:
-            wf = w.store.retrieve(ex.wf_id)
-            prev = w.ctx.get(0, ("idle", ""))
-            w.ctx[0] = ("client-cancel", "")
-            try:
+            with w.as_client("client-cancel"):
+                wf = w.store.retrieve(ex.wf_id)
                 w.orchestrator.cancel(wf, "sim", "c17")
-            finally:
-                w.ctx[0] = prev
             w.fault("cancel_request")
         n[0] += 1
 
